@@ -5,7 +5,8 @@ list structure) composed with `Alloc` (alloc.rs) the way `LocalBox` / `DualLinke
 * `CQueue::new`: one page, then per bucket a head and a tail sentinel node (`EventNode::empty`);
 * `add` of an event that is not for the current instant: one node (`EventNode::new`);
   events for the current instant live in the `VecDeque` and own no node;
-* `fetch_next` / `cancel` of a bucket-resident event: its node is re-boxed and dropped;
+* `fetch_next` / `cancel` of a bucket-resident event (the number of bucket-resident events went
+  down): its node is re-boxed and dropped;
 * `Drop for CQueue`: bucket by bucket, pending nodes front to back, then head, then tail;
   afterwards the `VecDeque` drops the current-instant payloads.
 
@@ -85,6 +86,9 @@ def create (orc : Nat → Nat) (n t page nsize nlog : Nat) : Option State × Out
 
 def pendingOf (m : CQ.State) : List CQ.Ev := m.zero ++ m.buckets.flatten
 
+/-- number of bucket-resident events (each owns one list node) -/
+def bucketCount (m : CQ.State) : Nat := m.buckets.flatten.length
+
 def add (orc : Nat → Nat) (st : State) (time val : Nat) : Res :=
   match CQ.add st.q.1 time val with
   | .error _ => { st, out := .cq .rejected, drops := [val] }     -- the payload dies with the panic
@@ -117,7 +121,7 @@ def cancel (orc : Nat → Nat) (st : State) (k : Nat) : Res :=
     if (pendingOf m').length = (pendingOf m).length then { st := st', out := .cq .cancelDone }
     else
       let victim := ((pendingOf m).find? (·.id = id)).map (·.val)
-      if m'.buckets != m.buckets then
+      if bucketCount m' < bucketCount m then
         let (st'', evs, ok) := freeNodeOf orc st' id
         { st := st'', out := if ok then .cq .cancelDone else .internal, evs, drops := victim.toList }
       else { st := st', out := .cq .cancelDone, drops := victim.toList }
@@ -128,7 +132,7 @@ def fetch (orc : Nat → Nat) (st : State) : Res :=
   | .error _ => { st, out := .internal }
   | .ok (e, m') =>
     let st' := { st with q := (m', st.q.2) }
-    if m'.buckets != st.q.1.buckets then
+    if bucketCount m' < bucketCount st.q.1 then
       let (st'', evs, ok) := freeNodeOf orc st' e.id
       { st := st'', out := if ok then .cq (.fetched e.val e.time) else .internal, evs }
     else { st := st', out := .cq (.fetched e.val e.time) }
